@@ -45,6 +45,11 @@ def menu(f, with_queries=False, full=True):
     flags_are_coords = all(k in coords for k in ('TFLAG', 'ETFLAG') if k in vars_)
     dn = [d for d in dims if d not in META]
 
+    def twice(d):
+        # (what stacking, re-ordering or an index list means for a variable that carries the dimension on two
+        # axes - orthogonal or paired? - is not defined anywhere: outside the domain)
+        return any(list(vd).count(d) > 1 for vd, dt in vars_.values())
+
     def add(op, dom=True, **kw):
         d = {'op': op, 'dom': bool(dom)}
         d.update(kw)
@@ -58,7 +63,7 @@ def menu(f, with_queries=False, full=True):
         add('slice', not (conv and dims[d0] <= 1), sel=[[d0, ['s', 1, None, None]]])
         if conv:
             add('slice', False, sel=[['VAR', ['i', -1]]])     # out-of-domain probe
-        add('slice', dims[dl] >= 1, sel=[[dl, ['l', [0, -1]]]])
+        add('slice', dims[dl] >= 1 and not twice(dl), sel=[[dl, ['l', [0, -1]]]])
         # the documented short names (f.slice / f.apply / f.subset) are the same operations
         add('slice', dims[dl] >= 1, sel=[[dl, ['s', -1, None, None]]], alias=True)
         # zipped selection over the first two dimensions some variable carries together
@@ -68,19 +73,16 @@ def menu(f, with_queries=False, full=True):
                 pair = (vd[0], vd[-1])
                 break
         if pair and pair[0] != pair[1]:
-            add('slice', dims[pair[0]] >= 1 and dims[pair[1]] >= 1 and 'POINTS' not in dims,
+            add('slice', dims[pair[0]] >= 1 and dims[pair[1]] >= 1 and 'POINTS' not in dims
+                and not twice(pair[0]) and not twice(pair[1]),
                 sel=[[pair[0], ['l', [0, 0]]], [pair[1], ['l', [0, -1]]]])
         if pair and pair[0] != pair[1]:
             # index list on one axis and an integer on another axis of the same variable
-            add('slice', dims[pair[0]] >= 1 and dims[pair[1]] >= 1,
+            add('slice', dims[pair[0]] >= 1 and dims[pair[1]] >= 1 and not twice(pair[0]),
                 sel=[[pair[0], ['l', [0]]], [pair[1], ['i', 0]]])
         if 'ROW' in dims and 'COL' in dims:
             add('slice', dims['ROW'] >= 1 and dims['COL'] >= 1,
                 sel=[['ROW', ['l', [0, dims['ROW'] - 1]]], ['COL', ['i', 0]]])
-        def twice(d):
-            # (what stacking or re-ordering means for a variable that carries the dimension on two axes is not
-            # defined anywhere: outside the domain)
-            return any(list(vd).count(d) > 1 for vd, dt in vars_.values())
         lens_ok = all(all(dims[x] >= 1 for x in vd) for vd, dt in vars_.values())
         for d in ([d0, dl] if d0 != dl else [d0]):
             num = _numeric_along(vars_, d)
